@@ -227,12 +227,32 @@ CHECKS = {
 }
 NOT_YET = "C10: check not built yet (stock-template differential and inlining law); planned per DESIGN.md §4 C10"
 
+# additions of session 5 (DESIGN section 11): appended to the level text of the check
+ADDED = {
+ "C01": " Re-rendering sub-check: components installed once, page template compiled once, rendered A, B, A with two page contexts in one process; every render must be what the semantics says for its own context.",
+ "C02": " The Python type of spread values is part of the value alphabet (mappings that are not dict, iterables that are not list; the type changes between the two contexts).",
+ "C04": " Second asset alphabet (assets reached only through inheritance / Media.extend lists, inline code over a backslash / replacement-template alphabet) replayed on every 4th enumerated page and in the random part.",
+ "C05": " Re-rendering sub-check with providers (same compiled templates rendered A, B, A).",
+ "C06": " Component-path oracle: per fault kind the multiset of annotated component paths over the fault runs equals the chains of the specification's instance tree. After a failed render the caller's Context has the layers it had before, the next render with the SAME Context equals the dry run, and a fixed canary render through the Python API gives what it gives in a fresh process.",
+ "C07": " Every TLC schedule and every fine-grained schedule of the provide workloads is also validated as an interleaved operation trace of the provide functions (logged at their linearization points) against the sequential machine ProvideRefs.tla.",
+ "C08": " The texts the inserted blocks carry range over a payload alphabet (backslash sequences, $1, %s, {0}) exported by TLC and must be inserted byte for byte (trace clause `payload`).",
+ "C09": " Atom alphabet includes verbatim near-misses (names with verbatim / endverbatim as proper prefix or suffix, other separators, stray and almost-closing end tags).",
+ "C10": " Families with component tags (blocks inside their fills) located inside included partials; theorem PartialBlockNamesIrrelevant.",
+ "C13": " Aggregate dictionaries may repeat a name (joined in template order); the end-tag guard is judged at every render of a history of renders (HistoryLaw).",
+ "C17": " String entries without a leading dot are in the suffix alphabet (matched exactly as given).",
+ "C18": " Component-level transparency over tables of classes that share an import path (OwnTemplate, NoSharing), every render / clear sequence enumerated for 4 cache sizes.",
+ "C19": " The URL configuration (script prefix, URLconf) is state of the machine (SetUrl); every emitted URL must be served under the configuration active at that render.",
+ "C20": " Configured directories carry spellings (.., ., trailing slash, symbolic link, repeated mention), app_dirs entries may have several segments; theorem: spelling never changes the expected result.",
+}
+
+
 def main():
     checks = []
     for pid in ALL:
         if pid not in CHECKS:
             continue
         cat, tech, text, note, ref = CHECKS[pid]
+        text = text + ADDED.get(pid, "")
         checks.append({
             "property_id": pid,
             "quick_cmd": f"./check {pid} --tier quick",
